@@ -7,3 +7,4 @@ import RSVerif.Properties.C12
 #print axioms RS.drop_new_round_dec
 #print axioms RS.consecutive_rounds
 #print axioms RS.source_accessors
+#print axioms RS.source_iterators
